@@ -29,7 +29,7 @@ ASSUMPTIONS = [
     "withdraws the pick)",
     "where the reference model and the implementation disagree on a visibility the case is counted, not reported (C01's subject)",
 ]
-BUDGET = {"quick": {"examples": 6400}, "thorough": {"examples": 160000, "deadline_s": 900}}
+BUDGET = {"quick": {"examples": 6400}, "thorough": {"examples": 400000, "deadline_s": 900}}
 
 CFG = gen.cfg(max_syms=12, min_syms=4, p_choice=45, p_choice_name=50, p_if=20, p_menu=20, p_prompt_cond=35, p_depends=45, p_choice_twice=30)
 
